@@ -45,7 +45,8 @@ Section Ring.
   Context {A : Type} (zero one : A) (add mul sub : A -> A -> A) (opp : A -> A)
           (Rth : ring_theory zero one add mul sub opp eq).
 
-  (* numpy path: whatever order argsort returns (it is not stable for equal keys) *)
+  (* numpy path as of /repo fafb76b (group sums by np.add.reduceat over the first position of every group):
+     whatever order argsort returns (it is not stable for equal keys) *)
   Theorem sum_by_group_np_spec : forall order ks vs,
     Permutation order (seq 0 (length ks)) -> Sorted Z.le (permute 0 order ks) -> length vs = length ks ->
     sbg_np zero add order ks vs = sbg_spec zero add ks vs.
@@ -141,6 +142,23 @@ Section RingMean.
 End RingMean.
 Print Assumptions extract_mean_groups_are_rows.
 
+(* 6d. final content of a section-mean / section-sum column (code as of /repo 08a8961; integers, Z.div): for every
+   duplicate-free non-negative labelling, all section counts, numba on or off: row r is written iff one of its own
+   sections is connected and then holds the sum over ITS OWN sections - undivided for the entry dp_frict_loss
+   ([is_sum]), divided by ITS OWN section count for every other entry; otherwise it keeps its old content *)
+Theorem extract_mean_and_sum_placement : forall (is_sum use_numba : bool) labels secs (conn : list bool) (vals old : list Z),
+  length secs = length labels -> NoDup labels -> (forall l, In l labels -> 0 <= l) ->
+  (forall s, In s secs -> (0 < s)%nat) ->
+  length conn = fold_right plus 0%nat secs -> length vals = fold_right plus 0%nat secs -> length old = length labels ->
+  forall r, (r < length labels)%nat ->
+    nth r (place_mean is_sum use_numba labels (idx_pit_of labels secs) conn vals old) 0 =
+    if 0 <? rowsumZ secs (map (fun b : bool => if b then 1 else 0) conn) r
+    then (if is_sum then rowsumZ secs vals r
+          else rowsumZ secs vals r / rowsumZ secs (map (fun _ => 1) (idx_pit_of labels secs)) r)
+    else nth r old 0.
+Proof. exact mean_placement_Z. Qed.
+Print Assumptions extract_mean_and_sum_placement.
+
 (* non-vacuity: unsorted, sparse, large labels; both dispatch outcomes on concrete keys *)
 Example lookup_example :
   let idx := [100007; 3; 52; 0] in
@@ -162,8 +180,10 @@ Example t_outlet_example :
   place_outlet 0 (idx_pit_of [7; 3; 5] [1; 3; 2]%nat) [true; true; true; true; true; true]
                [false; true; true; true; false; false] [10; 20; 21; 22; 30; 31] [-1; -1; -1] = Some [10; 20; 31]
   /\ pos_of_blocks 0 (first_blocks [1; 3; 2]%nat) = [0; 1; 4]%nat /\ pos_of_blocks 0 (last_blocks [1; 3; 2]%nat) = [0; 3; 5]%nat
-  /\ place_mean false [7; 3; 5] (idx_pit_of [7; 3; 5] [1; 3; 2]%nat) [true; true; true; true; true; true]
+  /\ place_mean false false [7; 3; 5] (idx_pit_of [7; 3; 5] [1; 3; 2]%nat) [true; true; true; true; true; true]
                 [12; 24; 36; 48; 10; 20] [-1; -1; -1] = [12; 36; 15]
+  /\ place_mean true false [7; 3; 5] (idx_pit_of [7; 3; 5] [1; 3; 2]%nat) [true; true; true; true; false; false]
+                [12; 24; 36; 48; 10; 20] [-1; -1; -1] = [12; 108; -1]
   /\ snd (pit_of [40; 10; 30] {| w_labels := [7; 3]; w_from := [10; 30]; w_to := [30; 40]; w_secs := [3; 1]%nat |} 3)
      = [(1, 3); (3, 4); (4, 2); (2, 0)].
 Proof. vm_compute. repeat split. Qed.
